@@ -479,7 +479,10 @@ class MessageAccumulator:
                 continue
             leader = self._cluster.leader_for_partition(tp)
             if leader is None or leader == -1:
-                if self._batches[tp][0].expired():
+                # With idempotence enabled batches never expire (see
+                # `SendProduceReqHandler._can_retry`): failing one here would
+                # also burn its sequence numbers and leave a gap.
+                if self._txn_manager is None and self._batches[tp][0].expired():
                     # batch is for partition is expired and still no leader,
                     # so set exception for batch and pop it
                     batch = self._pop_batch(tp)
